@@ -1269,8 +1269,11 @@ fn main() {
     let max_err = if quick { 1 } else { 2 };
 
     // read grid
-    // quick: 3-message sequences carry at most one long message
-    let seqs: Vec<Vec<usize>> = sequences(&lens, 3).into_iter().filter(|s| !quick || s.len() < 3 || s.iter().filter(|l| **l >= 255).count() <= 1).collect();
+    // quick: every 1- and 2-message sequence, every short 3-message sequence, the long message once per position
+    let seqs: Vec<Vec<usize>> = sequences(&lens, 3)
+        .into_iter()
+        .filter(|s| !quick || s.len() < 3 || s.iter().all(|l| *l < 255) || [vec![255, 1, 2], vec![1, 255, 2], vec![1, 2, 255]].contains(s))
+        .collect();
     ctx.set("message_sequences", json!(seqs.len()));
     let mut insts = vec![];
     for s in &seqs {
